@@ -112,7 +112,7 @@ for which, (nm, param, is_tag) in enumerate([("set_left_ptr", "lptr", 0), ("set_
 # ---- queue back-end adapters ----------------------------------------------------------------------------
 BE = "libs/pika/schedulers/include/pika/schedulers/lockfree_queue_backends.hpp"
 BE_RULES = [
-    Call(r"\bqueue_\.(push_left|push_right|enqueue)", "c_{h1}(&self->queue_, {0})", None),
+    Call(r"\bqueue_\.(push_left|push_right|enqueue|try_enqueue)", "c_{h1}(&self->queue_, {0})", None),
     Call(r"\bqueue_\.(pop_left|pop_right|try_dequeue)", "c_{h1}(&self->queue_, &{0})", None),
     Call(r"\bqueue_\.(empty|size_approx)", "c_{h1}(&self->queue_)", None),
     Sub(r"&val\b", "val", None),   # pop(reference val): val is already a pointer in C
